@@ -186,6 +186,49 @@ pub fn c18_check(c: &NgCase, st: &mut Stats) -> CheckResult {
                     ));
                 }
                 derived_any |= check_forced("conclusions", &read_back(&cn, n))?;
+                // propagation is iterated by feeding a result back as the next interpretation (the object itself, not a
+                // copy made from a term vector): same oracle relative to the larger interpretation
+                let mut cur = cn;
+                for round in 0..3 {
+                    let r: Partial = read_back(&cur, n);
+                    let e_r: Vec<u32> = (0..(1u32 << n)).filter(|&t| extends(t, &r) && !excluded(t)).collect();
+                    let direct_r = added.iter().any(|g| contained(g, &r));
+                    match store.conclusions(&cur) {
+                        None => {
+                            if !e_r.is_empty() {
+                                return Err(format!(
+                                    "spurious conflict: conclusions() fed with its own result {} (round {round}, from {}) = None but the total extension {:#b} avoids all added nogoods [{}]",
+                                    show(&r), show(&q), e_r[0], hist()
+                                ));
+                            }
+                            break;
+                        }
+                        Some(next) => {
+                            if direct_r {
+                                return Err(format!(
+                                    "conclusions() fed with its own result {} (round {round}, from {}): it matches an added nogood but no conflict is reported [{}]",
+                                    show(&r), show(&q), hist()
+                                ));
+                            }
+                            let rn = read_back(&next, n);
+                            for i in 0..n {
+                                if r[i] != 2 && rn[i] != r[i] {
+                                    return Err(format!("conclusions() fed with its own result {}: decided position {i} changed [{}]", show(&r), hist()));
+                                }
+                                if r[i] == 2 && rn[i] != 2 && !e_r.iter().all(|t| ((t >> i) & 1) as u8 == rn[i]) {
+                                    return Err(format!(
+                                        "conclusions() fed with its own result {}: concluded position {i} = {} but an extension avoiding all added nogoods has the other value [{}]",
+                                        show(&r), rn[i], hist()
+                                    ));
+                                }
+                            }
+                            if rn == r {
+                                break;
+                            }
+                            cur = next;
+                        }
+                    }
+                }
             }
             None => {
                 if !e.is_empty() {
